@@ -11,7 +11,7 @@ from ..report import Check
 from ..samplercfgs import CONFIGS
 from . import resolve
 
-C16_STEP = {"X_StartFragmentHonoured", "C16_Once", "C16_Complementary", "C16_PartnerOnFragment", "C16_Tree", "C16_NeverZero", "X_Unreplayable"}
+C16_STEP = {"X_StartFragmentHonoured", "C16_Once", "C16_Complementary", "C16_BondOrder", "C16_PartnerOnFragment", "C16_Tree", "C16_NeverZero", "X_Unreplayable"}
 C17_ALL = {"C17_WeightBelowTarget", "C17_NeverZeroSite", "C17_NeverZeroPartner", "C17_ReachesTarget", "C17_StopRule",
            "C17_TerminalBookkeeping", "C17_TerminalClosesAtom", "C17_TerminalsWithdrawn", "C17_MassTable", "X_Unreplayable"}
 C16_RES = ["C02_Records", "C02_Graph", "C02_Cover", "C02_Copy", "C12_Keys", "C12_Contiguous", "C12_AtomNames",
